@@ -1,6 +1,7 @@
 package main
 
 import (
+	"runtime"
 	"fmt"
 	"sort"
 	"strings"
@@ -111,6 +112,11 @@ type lcRoot struct {
 	legal map[string]bool
 }
 
+// K on h1 in check by the queen on h2 defended by the bishop: Kxh2 is impossible, Kg1?? no -
+// the only legal move is found by the self-test below (panic at start-up if not exactly one).
+const lcSingleMoveRoot = "6k1/8/8/8/8/5n2/6q1/7K w - - 0 1"
+const lcSingleRootIdx = 4
+
 var lcRoots = func() []lcRoot {
 	var rs []lcRoot
 	for _, f := range []string{
@@ -118,6 +124,7 @@ var lcRoots = func() []lcRoot {
 		"rnbqkbnr/pppppppp/8/8/4P3/8/PPPP1PPP/RNBQKBNR b KQkq e3 0 1",
 		"8/2p5/3p4/KP5r/1R3p1k/8/4P1P1/8 w - - 0 1",
 		"r3k2r/p1ppqpb1/bn2pnp1/3PN3/1p2P3/2N2Q1p/PPPBBPPP/R3K2R b KQkq - 0 1",
+		lcSingleMoveRoot, // exactly one legal move: any search of it ends at once by itself
 	} {
 		b := rc.MustFEN(f)
 		m := map[string]bool{}
@@ -158,6 +165,8 @@ func c14(c *Ctx) {
 	}
 	rep := c.Rep
 	nHist := c.Size(400, 20000)
+	origProcs := runtime.GOMAXPROCS(0)
+	defer runtime.GOMAXPROCS(origProcs)
 	delays := []time.Duration{0, 0, 0, time.Millisecond, 6 * time.Millisecond}
 	deadlocks := 0
 	for h := 0; h < nHist; h++ {
@@ -189,6 +198,16 @@ func c14(c *Ctx) {
 		drv.OnResult = func(best, ponder types.Move) { rec.add("result", 0, 0, best.StringUci()) }
 		rep.Begin(fmt.Sprintf("lifecycle history %d", h))
 		rep.Inc("histories")
+		forceRoot := -1
+		if h%6 == 4 {
+			// one processor only: goroutines the engine starts (search, timers) queue behind
+			// whoever runs, so they begin late - after their search has ended, or after the
+			// next one has begun
+			runtime.GOMAXPROCS(1)
+			rep.Inc("histories_single_processor")
+		} else {
+			runtime.GOMAXPROCS(origProcs)
+		}
 		var starts []*lcStart
 		var ops []string
 		blocked := false
@@ -266,7 +285,10 @@ func c14(c *Ctx) {
 			return ok
 		}
 		start := func(mode string) {
-			st := &lcStart{id: len(starts) + 1, mode: mode, root: r.Intn(len(lcRoots))}
+			st := &lcStart{id: len(starts) + 1, mode: mode, root: r.Intn(len(lcRoots) - 1)}
+			if forceRoot >= 0 {
+				st.root = forceRoot
+			}
 			var lim search.Limits
 			switch mode {
 			case "depth":
@@ -346,6 +368,28 @@ func c14(c *Ctx) {
 				start("infinite")
 				rep.Inc("restarts_within_poll_window")
 				time.Sleep(time.Duration(20+r.Intn(60)) * time.Millisecond)
+				call("issearching", func() {
+					v := s.IsSearching()
+					rec.add("issearching-value", map[bool]int64{false: 0, true: 1}[v], 0, "")
+				})
+				call("stop", func() { s.StopSearch() })
+			case x < 97:
+				// a timed search that ends at once by itself (single legal move), directly
+				// followed by a search without a timer of its own: the first one's timer
+				// goroutine may only start now and must leave the second search alone
+				call("stop", func() { s.StopSearch() })
+				if blocked {
+					break
+				}
+				forceRoot = lcSingleRootIdx
+				start([]string{"movetime", "longtime"}[r.Intn(2)])
+				forceRoot = -1
+				if blocked {
+					break
+				}
+				start([]string{"infinite", "ponder"}[r.Intn(2)])
+				rep.Inc("untimed_right_after_instant_timed")
+				time.Sleep(time.Duration(10+r.Intn(50)) * time.Millisecond)
 				call("issearching", func() {
 					v := s.IsSearching()
 					rec.add("issearching-value", map[bool]int64{false: 0, true: 1}[v], 0, "")
@@ -533,7 +577,8 @@ func c14judge(rep *Rep, h int, rec *lcRecorder, starts []*lcStart, ops []string)
 					rep.Viol("isolation:ponder-search-ended-without-own-stop", fmt.Sprintf("ponder search #%d sent its result without stop or ponderhit+time-out of its own", st.id), payload())
 				}
 			case "longtime":
-				if !stopDuring[running] && !timerFiredFor[running] {
+				// (a root with a single legal move is answered at once: that is its own end)
+				if st.root != lcSingleRootIdx && !stopDuring[running] && !timerFiredFor[running] {
 					rep.Viol("isolation:timed-search-ended-early", fmt.Sprintf("search #%d (move time of seconds) ended without stop and without its own timer", st.id), payload())
 				}
 			}
